@@ -10,6 +10,7 @@ import (
 	"bytes"
 	"fmt"
 	"reflect"
+	"strings"
 )
 
 // Options steer a comparison.
@@ -27,6 +28,17 @@ type Options struct {
 // Positions is the ignore set for position fields.
 func Positions() map[string]bool {
 	return map[string]bool{"StartPos": true, "AnchorPoint": true, "readBoxSize": true}
+}
+
+// KeyPath returns a stable finding-key component for the first difference:
+// the field path from the innermost typed node on, indices removed, e.g.
+// "(ElngBox).missingFullBox".
+func KeyPath(diffs []string) string {
+	p := FirstPath(diffs)
+	if i := strings.LastIndex(p, "("); i >= 0 {
+		p = p[i:]
+	}
+	return p
 }
 
 type visitKey struct {
@@ -47,7 +59,11 @@ func Diff(a, b interface{}, o Options) []string {
 		o.Max = 8
 	}
 	d := &differ{o: o, visited: map[visitKey]bool{}}
-	d.walk(reflect.ValueOf(a), reflect.ValueOf(b), "")
+	root := ""
+	if v := reflect.ValueOf(a); v.IsValid() {
+		root = "(" + shortType(v.Type()) + ")"
+	}
+	d.walk(reflect.ValueOf(a), reflect.ValueOf(b), root)
 	return d.diffs
 }
 
